@@ -283,8 +283,14 @@ def table_3_1_lgpc(state: Sequence[float], params: Sequence[float]) -> dict:
         exact = (_fr(state[0] * params[0]) == _fr(state[0]) * _fr(params[0]))
         return {"value": params[2] * math.sin(1.0),
                 "tol": 8 * EPS * abs(params[2]), "unsure": not exact}
-    if abs(a) <= a_err or not math.isfinite(params[3] / a):
-        return {"value": 0.0, "tol": 0.0, "unsure": True}
+    if abs(a) <= a_err or not math.isfinite(params[3] / a) \
+            or abs(params[3] / a) > 1e300:
+        # the quotient may overflow to +-inf, whose sine is NaN in IEEE
+        # arithmetic: then NaN *is* the value of the documented formula
+        lo = max(abs(a) - a_err, 5e-324)
+        return {"value": 0.0, "tol": 0.0, "unsure": True,
+                "may_overflow": params[3] != 0.0 and (
+                    abs(params[3]) / lo > 1e300)}
     arg = params[3] / a
     arg_err = abs(arg) * (a_err / abs(a) + 4 * EPS)
     if arg_err > 1e-3 or abs(arg) > 1e6:
